@@ -347,6 +347,24 @@ func checkC08(c *Ctx) {
 	c8SingleRelease(c)
 	c8Ownership(c)
 	c8CloneOwnership(c, "R8.5")
+	c.Rule("R8.9", "the stack capture skips the same frames whether the pooled frame storage was large enough or had to grow (the caller reported does not depend on whether the pool was warm)", 2)
+	{
+		// the caller-depth rules of C15 that concern the capture itself, filed here as well
+		tmp := NewCtx(c.Program, "C15")
+		checkC15(tmp)
+		n := 0
+		for _, o := range tmp.Obs {
+			if (o.Rule == "R15.5") || (o.Rule == "R15.1" && strings.Contains(o.Key, "runtime.Callers")) {
+				o.Key = strings.Replace(o.Key, o.Rule+"|", "R8.9|", 1)
+				o.Rule = "R8.9"
+				c.Obs = append(c.Obs, o)
+				n++
+			}
+		}
+		if n == 0 {
+			c.Bad("R8.9", "stacktrace.Capture", "depth", token.NoPos, "no capture-depth obligations found")
+		}
+	}
 	c.Rule("R8.8", "zapio.Writer: what is logged for a line depends on the bytes of that line only (the reassembly buffer never keeps bytes of a line that was already handed to the logger)", 5)
 	c17Rules(c, "R8.8")
 	c.Rule("R8.7", "no value built from a parent shares a slice tail with it (what a derived handler or an emitted entry holds cannot be overwritten by deriving or logging again)", 1)
